@@ -753,6 +753,19 @@ def conversions(ck, rule):
               and isinstance(n.value.args[0].func, ast.Attribute) and n.value.args[0].func.attr in ("get_val", "astype", "raw") or
               isinstance(n, ast.Return) and isinstance(n.value, ast.Call) and dotted(n.value.func) == "bool" and n.value.args and dotted(n.value.args[0]) == "self.val" for n in ast.walk(m.node))
     ck.check(okb, rule, m, "bool() is true iff the value (code) is non-zero", "__bool__ does not test the value", m.node)
+    it = prog.func("objects.Fxp.item", required=False)
+    if it is not None:
+        nret = 0
+        for pf_ in fpaths(prog, it):
+            if pf_.end != "return" or pf_.ret is None:
+                continue
+            nret += 1
+            r = pf_.ret
+            okr = isinstance(r, ast.Call) and prog.resolve_call(it, r) in (f.qualname, g.qualname)
+            ck.check(okr, rule, it, "item() reads its element through astype / get_val (code * 2^-n_frac, then the scale / bias read map)", "item returns %s" % src(r)[:70], pf_.ret_stmt,
+                     "a conversion of its own leaves out the read map of scaled objects (and the value-type rules of astype)")
+        if nret == 0:
+            raise AnalysisError("Fxp.item: no returning path")
 
 
 def value_type_fixup(ck, rule):
